@@ -17,5 +17,6 @@ func controlsC13() []Control {
 		{Name: "PlayerFold records the fold before the hand accepted it", Expect: "R4", Mutate: replaceIn("(*tableEngine).PlayerFold", "gs, err := te.game.Fold(gamePlayerIdx)", "te.table.State.PlayerStates[playerIdx].GameStatistics.IsFold = true\n\tgs, err := te.game.Fold(gamePlayerIdx)", 0)},
 		{Name: "hand error handler returns early on a nil state", Expect: "R3", Mutate: replaceIn("(*tableEngine).startGame", "\t\tte.table.State.GameState = gs\n\t\tgo te.emitErrorEvent", "\t\tif gs == nil {\n\t\t\treturn\n\t\t}\n\t\tte.table.State.GameState = gs\n\t\tgo te.emitErrorEvent", 0)},
 		{Name: "error callback setter drops the callback", Expect: "R3", Mutate: replaceIn("(*tableEngine).OnTableErrorUpdated", "te.onTableErrorUpdated = fn", "_ = fn", 0)},
+		{Name: "move validator raises a flag of the hand object that only the next state lowers", Expect: "R1", Mutate: replaceIn("(*game).validatePlayMove", "\tif g.gs.Status.CurrentPlayer != playerIdx {\n\t\treturn ErrGameInvalidAction\n\t}\n", "\tif g.gs.Status.CurrentPlayer != playerIdx {\n\t\treturn ErrGameInvalidAction\n\t}\n\tg.rg = nil\n", 0)},
 	}
 }
